@@ -182,6 +182,84 @@ pub fn corpus(idx: usize, seed: u64, w: &mut dyn Write, thorough: bool) -> Optio
             g.battery_forge();
             Some(g.stats)
         }
+        4 => {
+            // id collisions across creation paths and owners, followed by the trades that would exploit
+            // them; NFTs with the SAME token id from different collections deposited in the other order
+            let mut g = Gen::start(default_world(), "corpus:4 id-collisions same-token-ids", seed, w, thorough);
+            let t = g.h.sim.cw20_addrs()[0].clone();
+            let colls = g.h.sim.cw721_addrs().to_vec();
+            let paths = ["X", "T20", "T721"];
+            let mut id = 100u64;
+            for (pi, p1) in paths.iter().enumerate() {
+                for (pj, p2) in paths.iter().enumerate() {
+                    id += 1;
+                    // alice: bucket `id` through p1 (kept), and a finalized listing asking 50 uatom
+                    let a_nft = g.h.sim.nft_owners(&colls[0]).into_iter().filter(|(_, o)| o == "alice").map(|(t, _)| t).next();
+                    let op1 = match *p1 {
+                        "X" => x("alice", natives(&[(40, JUNO_DENOM)]), MMsg::CB { id }),
+                        "T20" => Op::T20 { token: t.clone(), sender: "alice".into(), amount: 40, inner: Inner::CB { id } },
+                        _ => match a_nft {
+                            Some(tid) => Op::T721 { coll: colls[0].clone(), sender: "alice".into(), token_id: tid, inner: Inner::CB { id } },
+                            None => x("alice", natives(&[(40, JUNO_DENOM)]), MMsg::CB { id }),
+                        },
+                    };
+                    g.step(&op1);
+                    let lid = 1000 + id;
+                    g.step(&x("alice", natives(&[(7, "uosmo")]), MMsg::CL { id: lid, create: create(&[(50, "uatom")]) }));
+                    g.step(&x("alice", vec![], MMsg::FI { id: lid, seconds: 600 }));
+                    // bobby tries to open a bucket with the SAME id through p2 (must be refused), holding the ask
+                    let b_nft = g.h.sim.nft_owners(&colls[1]).into_iter().filter(|(_, o)| o == "bobby").map(|(t, _)| t).next();
+                    let op2 = match *p2 {
+                        "X" => x("bobby", natives(&[(50, "uatom")]), MMsg::CB { id }),
+                        "T20" => Op::T20 { token: t.clone(), sender: "bobby".into(), amount: 50, inner: Inner::CB { id } },
+                        _ => match b_nft {
+                            Some(tid) => Op::T721 { coll: colls[1].clone(), sender: "bobby".into(), token_id: tid, inner: Inner::CB { id } },
+                            None => x("bobby", natives(&[(50, "uatom")]), MMsg::CB { id }),
+                        },
+                    };
+                    let o2 = g.step(&op2);
+                    if o2.ok && *p2 != "X" {
+                        // make it match the ask
+                        g.step(&x("bobby", natives(&[(50, "uatom")]), MMsg::AB { id }));
+                    }
+                    // … and to buy alice's listing with it (would overwrite alice's bucket `id`)
+                    g.step(&x("bobby", vec![], MMsg::BL { listing_id: lid, bucket_id: id }));
+                    // the same for listing ids: carol re-creates alice's listing id through p2
+                    let op3 = match *p2 {
+                        "X" => x("carol", natives(&[(5, JUNO_DENOM)]), MMsg::CL { id: lid, create: create(&[(5, "uatom")]) }),
+                        "T20" => Op::T20 { token: t.clone(), sender: "carol".into(), amount: 5, inner: Inner::CL { id: lid, create: create(&[(5, "uatom")]) } },
+                        _ => {
+                            let c_nft = g.h.sim.nft_owners(&colls[2]).into_iter().filter(|(_, o)| o == "carol").map(|(t, _)| t).next();
+                            match c_nft {
+                                Some(tid) => Op::T721 { coll: colls[2].clone(), sender: "carol".into(), token_id: tid, inner: Inner::CL { id: lid, create: create(&[(5, "uatom")]) } },
+                                None => x("carol", natives(&[(5, JUNO_DENOM)]), MMsg::CL { id: lid, create: create(&[(5, "uatom")]) }),
+                            }
+                        }
+                    };
+                    g.step(&op3);
+                    // alice cashes out what is hers
+                    g.step(&x("alice", vec![], MMsg::RB { id }));
+                    let _ = (pi, pj);
+                }
+            }
+            g.battery_drain();
+            // same token id in two collections: ask [c0#T, c1#T], bucket deposited c1 first, and vice versa
+            let d_ids: Vec<String> = g.h.sim.nft_owners(&colls[0]).into_iter().filter(|(_, o)| o == "david").map(|(t, _)| t).collect();
+            for (k, tid) in d_ids.iter().take(2).enumerate() {
+                let lid = 2000 + k as u64;
+                let ask = RawGBal { native: vec![], cw20: vec![], nfts: vec![(va(&colls[0]), tid.clone()), (va(&colls[1]), tid.clone())] };
+                g.step(&x("erinn", natives(&[(9, "uosmo")]), MMsg::CL { id: lid, create: Create { ask, whitelist: None } }));
+                g.step(&x("erinn", vec![], MMsg::FI { id: lid, seconds: 600 }));
+                let (first, second) = if k == 0 { (1usize, 0usize) } else { (0usize, 1usize) };
+                g.step(&Op::T721 { coll: colls[first].clone(), sender: "david".into(), token_id: tid.clone(), inner: Inner::CB { id: lid } });
+                g.step(&Op::T721 { coll: colls[second].clone(), sender: "david".into(), token_id: tid.clone(), inner: Inner::AB { id: lid } });
+                g.step(&x("david", vec![], MMsg::BL { listing_id: lid, bucket_id: lid }));
+                g.step(&x("david", vec![], MMsg::WP { id: lid }));
+                g.step(&x("erinn", vec![], MMsg::RB { id: lid }));
+            }
+            g.battery_drain();
+            Some(g.stats)
+        }
         _ => None,
     }
 }
@@ -575,6 +653,33 @@ pub fn boundary(idx: usize, seed: u64, w: &mut dyn Write, thorough: bool) -> Opt
             g.step(&Op::ADV { d_ns: 6_000_000_000, d_height: 100 });
             g.step(&Op::AD { sender: "bobby".into(), contract: colls[0].clone(), new_admin: None });
             g.probe(&Op::R { sender: "bobby".into(), msg: RMsg::Rem { nft: va(&colls[0]) } });
+            Some(g.stats)
+        }
+        15 | 16 | 17 | 18 => {
+            // royalty gate on NFT-for-NFT trades (no fungible on the paying side): sums 5010 / 5000, both sides
+            let last = if idx % 2 == 1 { 210u64 } else { 200 };
+            let buyer_side = idx >= 17;
+            let mut g = Gen::start(royalty_world(18), &format!("boundary:{} royalty-gate nft-for-nft last={} side={}", idx, last, if buyer_side { "buyer" } else { "seller" }), seed, w, thorough);
+            let colls = g.h.sim.cw721_addrs().to_vec();
+            for (i, c) in colls.iter().take(17).enumerate() {
+                let bps = if i < 16 { 300 } else { last };
+                g.step(&Op::R { sender: DEPLOYER.into(), msg: RMsg::Reg { nft: va(c), payout: va(PAYOUTS[i % 2]), bps } });
+            }
+            let a_tid = g.h.sim.nft_owners(&colls[0]).into_iter().find(|(_, o)| o == "alice").map(|(t, _)| t).unwrap();
+            let b_tid = g.h.sim.nft_owners(&colls[17]).into_iter().find(|(_, o)| o == "bobby").map(|(t, _)| t).unwrap();
+            let many = GenericBalance { native: vec![], cw20: vec![], nfts: colls.iter().take(17).map(|c| Nft { contract_address: Addr::unchecked(c.as_str()), token_id: a_tid.clone() }).collect() };
+            let single = GenericBalance { native: vec![], cw20: vec![], nfts: vec![Nft { contract_address: Addr::unchecked(colls[17].as_str()), token_id: b_tid.clone() }] };
+            let (lister, goods, ask, payer, pay) = if !buyer_side { ("alice", &many, &single, "bobby", &single) } else { ("bobby", &single, &many, "alice", &many) };
+            let cr = Create { ask: gbal_to_raw(ask), whitelist: None };
+            for op in g.deposit_ops(lister, goods, 1, Some(cr)) {
+                g.step(&op);
+            }
+            g.step(&x(lister, vec![], MMsg::FI { id: 1, seconds: 600 }));
+            for op in g.deposit_ops(payer, pay, 1, None) {
+                g.step(&op);
+            }
+            g.step(&x(payer, vec![], MMsg::BL { listing_id: 1, bucket_id: 1 }));
+            g.battery_drain();
             Some(g.stats)
         }
         13 | 14 => {
